@@ -2,7 +2,7 @@
 window term).  Every expression is well typed (int / str / bool), every sub-query that feeds a scalar position is an
 aggregate (one row), every LIMIT/OFFSET comes with an ORDER BY covering the whole select list, GROUP BY statements
 select only group keys and aggregates -- so that the result is a function of the data ("on any data")."""
-from harness.c04.sqlite_ref import INT_COLS, COLS, MAIN_TABLES
+from harness.c04.sqlite_ref import INT_COLS, COLS, MAIN_TABLES, Ref
 
 CLS = "SQLLiteQuery"
 ALIASES = ["al", "n", "total", "b", "c", "id"]        # b / c / id collide with real column names on purpose
@@ -293,7 +293,7 @@ class SGen:
                         cond = ["on", ["t", eq]]
             elif r < 0.88 and nfrom == 1 and jn == 0:
                 common = [c for c in srcs[0].cols if c in src.cols and srcs[0].cols[c] == src.cols[c]]
-                cond = ["using", [self.r.choice(common)]] if common else ["cross"]
+                cond = ["using", self.r.sample(common, 2 if len(common) > 1 and self.r.random() < 0.35 else 1)] if common else ["cross"]
             else:
                 cond = ["cross"]
             how = self.r.choice(JOIN_TYPES) if cond[0] != "cross" else "cross"
@@ -338,13 +338,14 @@ class SGen:
                 if self.r.random() < 0.8:
                     kk = name_item(k, typ, named)
                     # the alias-substituted GROUP BY is only right when the alias does not hide a column (finding F1)
-                    if kk[-1] is not None and any(kk[-1] in x.cols for x in srcs) and self.r.random() >= self.p_defect:
+                    if kk[0] in ("field", "arith", "func", "case") and kk[-1] is not None and any(kk[-1] in x.cols for x in srcs) and self.r.random() >= self.p_defect:
                         gitems.append(["t", k])
                     else:
                         gitems.append(["t", kk])
                     sels.append(["t", kk])
                 else:
-                    gitems.append(["t", k])
+                    # a group key that is not selected; sometimes it carries an alias nobody selected (must be ignored)
+                    gitems.append(["t", self._unselected_alias(k, outcols) if self.r.random() < 0.4 else k])
             for _ in range(self.r.choice([1, 1, 2])):
                 a = self.agg(srcs, ub)
                 typ = "str" if (a[1] in ("MIN", "MAX") and a[2][0][0] == "field" and a[2][0][1] == "s") else "int"
@@ -415,9 +416,17 @@ class SGen:
                     elif not grouped and not q.get("distinct"):
                         f = self.field(srcs, "int", ub)
                         if f is not None:
+                            if self.r.random() < 0.3:
+                                f = self._unselected_alias(f, {Ref.out_name(i) for i in sels})
                             obs.append([["t", f], self.r.choice([None, "asc", "desc"])])
             if obs:
                 q["orderby"] = obs
+        hits = captured_order_items(q)
+        if hits and self.r.random() >= self.p_defect:
+            q["orderby"] = [o for n, o in enumerate(q["orderby"]) if n not in hits]
+            want_page = False
+            if not q["orderby"]:
+                q.pop("orderby")
         if want_page and q.get("orderby"):
             q["limit"] = self.r.choice([0, 1, 2, 3, 5, 10])
             if self.r.random() < 0.6:
@@ -426,12 +435,27 @@ class SGen:
 
     def _ob_item(self, sel_item, sels):
         """ORDER BY by a select item: the very same (aliased) term, so that pypika substitutes the alias, or the bare
-        expression"""
+        expression, or the expression under an alias that is not selected (which must be ignored)"""
         t = sel_item[1]
-        if t[-1] is not None and t[0] in ("field", "arith", "func", "case", "win") and self.r.random() < 0.3:
-            t = list(t)
-            t[-1] = None
+        if t[0] in ("field", "arith", "func", "case", "win"):
+            r = self.r.random()
+            if t[-1] is not None and r < 0.3:
+                t = list(t)
+                t[-1] = None
+            elif r < 0.5:
+                taken = {Ref.out_name(i) for i in sels}
+                t = self._unselected_alias(t, taken)
         return ["t", t]
+
+    def _unselected_alias(self, t, taken):
+        if t[0] not in ("field", "arith", "func", "case", "win"):
+            return t
+        free = [a for a in ["b", "c", "id", "a", "zz", "q9"] if a not in taken]
+        if not free:
+            return t
+        t = list(t)
+        t[-1] = self.r.choice(free)
+        return t
 
     def top(self, windows=False):
         q, _ = self.select(0, windows=windows)
@@ -441,6 +465,60 @@ class SGen:
 # ----------------------------------------------------------------------------------------------
 # spec utilities
 # ----------------------------------------------------------------------------------------------
+ALIASABLE = ("field", "arith", "func", "case", "win")
+
+
+def stmt_qualifies(q):
+    """does get_sql decide with_namespace=True for this statement?"""
+    if q.get("joins") or len(q.get("from", [])) > 1 or (q.get("from") and q["from"][0][0] == "q"):
+        return True
+    found = []
+    w = q.get("where")
+    if w is not None and w[0] == "t":
+        def f(t):
+            if t[0] == "field" and isinstance(t[2], list) and not t[2][0].startswith("#"):
+                found.append(1)
+        walk_terms(w[1], f)
+    return bool(found)
+
+
+def field_unqualified(q, t):
+    """is the field rendered as a bare column name in statement q?"""
+    if t[2] is None:
+        return True
+    if t[2][2] is not None:
+        return False
+    if not t[2][0].startswith("#"):
+        return not stmt_qualifies(q)
+    if stmt_qualifies(q):
+        return False
+    src = (q.get("from", []) + [j[1] for j in q.get("joins", [])])[int(t[2][0][1:])]
+    return src[0] == "t" and src[1][2] is None
+
+
+def captured_order_items(q):
+    """positions of ORDER BY items rendered as a bare column name that is also the output name of a select item of
+    another meaning: SQL binds a bare ORDER BY identifier to the output column first"""
+    outs = {}
+    for i in q.get("selects", []):
+        nm = Ref.out_name(i)
+        if nm is not None and not (i[0] == "t" and i[1][0] == "star"):
+            outs.setdefault(nm, i)
+    aliases = {i[1][-1] for i in q.get("selects", []) if i[0] == "t" and i[1][0] in ALIASABLE and i[1][-1] is not None}
+    hits = []
+    for n, (it, _d) in enumerate(q.get("orderby", [])):
+        if it[0] != "t":
+            continue
+        t = it[1]
+        if t[0] in ALIASABLE and t[-1] is not None and t[-1] in aliases:
+            continue            # pypika writes the alias on purpose
+        if t[0] == "field" and field_unqualified(q, t) and t[1] in outs:
+            o = outs[t[1]]
+            same = o[0] == "t" and o[1][0] == "field" and o[1][1] == t[1] and o[1][2] == t[2]
+            if not same:
+                hits.append(n)
+    return hits
+
 def sub_specs(it):
     """sub-query specs directly inside an item"""
     k = it[0]
